@@ -102,7 +102,8 @@ Fixpoint remove_key (k : key) (l : list key) : list key :=
 Inductive cop :=
 | CRead (k : key)                 (* this client: get_cached_view(k) *)
 | CWrite (k : key) (v : cval)     (* anyone (this client included) stores a value under k; v = 0 deletes *)
-| CDeliver.                       (* the client handles its oldest pending invalidation *)
+| CDeliver                        (* the client handles its oldest pending invalidation *)
+| CHas (k : key).                 (* this client: k in store - the server's answer, never the cache's (1 = present, 0 = absent) *)
 
 Definition trim (c : nat) (l : list (key * cval)) : list (key * cval) :=
   if Nat.ltb c (length l) then tl l else l.
@@ -128,6 +129,10 @@ Definition cstep (w : cworld) (o : cop) : cworld * option cval :=
       | [] => (w, None)
       | k :: r => ({| kv := kv w; tracked := tracked w; pendingq := r; cache := cdel k (cache w); cap := cap w |}, None)
       end
+  | CHas k =>
+      (* EXISTS is a read: the server remembers that this client has looked at k *)
+      ({| kv := kv w; tracked := k :: remove_key k (tracked w); pendingq := pendingq w; cache := cache w; cap := cap w |},
+       Some (if Nat.eqb (server_val w k) 0 then 0 else 1))
   end.
 
 Definition cinit (c : nat) : cworld := {| kv := []; tracked := []; pendingq := []; cache := []; cap := c |}.
